@@ -2,7 +2,7 @@
    Model: Model/GroupByObj.v.  [abs] = the global group code of every row. *)
 From Coq Require Import List ZArith Bool.
 From GL Require Import Lib.Arr Model.Dom Model.Scalar Model.Reduce Model.GroupByApi Model.GroupByObj
-  Proofs.ChunkedKeys Proofs.ObjProofs.
+  Proofs.ChunkedKeys Proofs.ObjProofs Proofs.ObjTie Gen.TablesGen.
 Import ListNotations.
 Open Scope Z_scope.
 
@@ -49,6 +49,16 @@ Proof.
                                 (eq_sym (reduce_on_local fops fops_laws fops_sum_closed r ng chs vchunks Hr Hwf))).
 Qed.
 Print Assumptions C13_example_history.
+
+(* 5. Tie B (regenerated from core.py on this run): the three kinds of steps of the model are all there is —
+      only construction and _unify_group_key_chunks assign attributes of the object, unification assigns only the
+      codes and the pointer tables (never the labels), unify(keep_chunked=True) is called only from the cached
+      group-sort indexer, and everything else remembered on the object is a cached_property *)
+Theorem C13_only_unification_mutates_the_object :
+  forallb self_write_ok gen_self_writes = true /\ forallb unify_site_ok gen_unify_sites = true /\
+  gen_cached_properties = cached_properties.
+Proof. exact (conj self_writes_ok (conj unify_sites_ok tie_cached_properties)). Qed.
+Print Assumptions C13_only_unification_mutates_the_object.
 
 (* Non-vacuity: a chunk-factorized object (two chunks, different dictionaries, a null key), the
    history groups -> transform, and the codes it ends with *)
